@@ -36,7 +36,35 @@ UNITS["C11"] = [
     dict(test="TestC11_CrossFamily", quick=dict(), thorough=dict()),
 ]
 
+UNITS["C06"] = [
+    dict(test="TestC06_Trees", quick=dict(checks=1500, shards=4), thorough=dict(checks=40000, shards=16)),
+    dict(test="TestC06_Terms", quick=dict(), thorough=dict()),
+]
+
+UNITS["C07"] = [
+    dict(test="TestC07_Lists", quick=dict(checks=1500, shards=4), thorough=dict(checks=40000, shards=16)),
+]
+
+UNITS["C08"] = [
+    dict(test="TestC08_Sweep", quick=dict(), thorough=dict()),
+]
+
+UNITS["C09"] = [
+    dict(test="TestC09_Sweep", quick=dict(), thorough=dict()),
+    dict(test="TestC09_Trees", quick=dict(checks=1000, shards=4), thorough=dict(checks=25000, shards=16)),
+]
+
+UNITS["C10"] = [
+    dict(test="TestC10_Rewrites", quick=dict(checks=1000, shards=5), thorough=dict(checks=30000, shards=16)),
+    dict(test="TestC10_Compose", quick=dict(checks=800, shards=3), thorough=dict(checks=20000, shards=16)),
+]
+
 RULES = {
+    "C06": "ExtractLicenses returns exactly the distinct terms of the expression, each canonical, a fix-point and self-satisfying",
+    "C07": "the allowed list is a set and the verdict is monotone in it (metamorphic relations between related lists)",
+    "C08": "X+ / X-or-later and X / X-only are interchangeable in every context (metamorphic substitution over every listed id)",
+    "C09": "letter case of listed ids never matters; ExtractLicenses reports list casing",
+    "C10": "expressions denoting the same Boolean function get the same verdict (metamorphic rewrites, no reference evaluator)",
     "C02": "single-term matching: Satisfies(a,{b}) vs the documented version / + / exception / reference rules read against the shipped family table",
     "C11": "'+' reaches exactly the later versions of the same family in natural version order; the family table is well-formed",
     "C04": "one notion of validity: ValidateLicenses / ExtractLicenses / Satisfies agree on which strings are valid and return errors exactly for invalid input",
